@@ -41,7 +41,12 @@ def solve(puzzle, h, w, problem):
     """-> (is_sat, facts)"""
     import z3
     z3.set_param("timeout", 120000)
-    from cspuz.puzzle import slitherlink, masyu, yajilin, simpleloop
+    from cspuz.puzzle import (slitherlink, masyu, yajilin, simpleloop, nurikabe, norinori, akari, star_battle, yinyang,
+                              creek, heyawake, lits, nurimisaki, putteria, aquarium, gokigen)
+
+    def rooms(rgs):
+        k = max(rgs) + 1
+        return [[(c // w, c % w) for c in range(len(rgs)) if rgs[c] == b] for b in range(k)]
     with warnings.catch_warnings():
         warnings.simplefilter("ignore")
         if puzzle == "slitherlink":
@@ -57,6 +62,42 @@ def solve(puzzle, h, w, problem):
             cells, pv = problem[0], problem[1][0]
             sat, fr = simpleloop.solve_simpleloop(h, w, grid(cells, h, w), (pv // w, pv % w))
             return sat, frame_facts(fr) if sat else []
+        if puzzle == "nurikabe":
+            sat, white = nurikabe.solve_nurikabe(h, w, grid(problem, h, w))
+            return sat, arr_facts(white) if sat else []
+        if puzzle == "norinori":
+            sat, a = norinori.solve_norinori(h, w, rooms(problem[0]))
+            return sat, arr_facts(a) if sat else []
+        if puzzle == "akari":
+            sat, a = akari.solve_akari(h, w, grid(problem, h, w))
+            return sat, arr_facts(a) if sat else []
+        if puzzle == "starbattle":
+            sat, a = star_battle.solve_star_battle(h, grid(problem[0], h, w), problem[1][0])
+            return sat, arr_facts(a) if sat else []
+        if puzzle == "yinyang":
+            sat, a = yinyang.solve_yinyang(h, w, grid(problem, h, w))
+            return sat, arr_facts(a) if sat else []
+        if puzzle == "creek":
+            sat, a = creek.solve_creek(h, w, grid(problem, h + 1, w + 1))
+            return sat, arr_facts(a) if sat else []
+        if puzzle == "heyawake":
+            sat, a = heyawake.solve_heyawake(h, w, rooms(problem[0]), list(problem[1]))
+            return sat, arr_facts(a) if sat else []
+        if puzzle == "lits":
+            sat, a = lits.solve_lits(h, w, rooms(problem[0]))
+            return sat, arr_facts(a) if sat else []
+        if puzzle == "nurimisaki":
+            sat, a = nurimisaki.solve_nurimisaki(h, w, grid(problem, h, w))
+            return sat, arr_facts(a) if sat else []
+        if puzzle == "putteria":
+            sat, a = putteria.solve_putteria(h, w, rooms(problem[0]))
+            return sat, arr_facts(a) if sat else []
+        if puzzle == "aquarium":
+            sat, a = aquarium.solve_aquarium(h, w, rooms(problem[0]), list(problem[1][:h]), list(problem[1][h:]))
+            return sat, arr_facts(a) if sat else []
+        if puzzle == "gokigen":
+            sat, a = gokigen.solve_gokigen(h, w, grid(problem, h + 1, w + 1))
+            return sat, arr_facts(a) if sat else []
     raise ValueError("no adapter for " + puzzle)
 
 
